@@ -29,6 +29,7 @@ pub struct Ctx {
     pub viol: Vec<Violation>,
     pub nviol: u64,
     pub samples: Vec<Value>,
+    pub vcap: usize,
 }
 
 impl Default for Ctx {
@@ -47,6 +48,7 @@ impl Ctx {
             viol: Vec::new(),
             nviol: 0,
             samples: Vec::new(),
+            vcap: MAX_VIOL_PER_CTX,
         }
     }
     #[inline]
@@ -61,7 +63,7 @@ impl Ctx {
     }
     pub fn violate(&mut self, case: Value, msg: String) {
         self.nviol += 1;
-        if self.viol.len() < MAX_VIOL_PER_CTX {
+        if self.viol.len() < self.vcap {
             self.viol.push(Violation { case, msg });
         }
     }
